@@ -469,7 +469,15 @@ def check_usage_errors(ctx: Ctx) -> None:
                     # sources of the condition that *directly* controls the raise
                     gs: set[str] = set()
                     # (all of them: `if a and b: raise` may be written `if a:` / `if b: raise`)
-                    for bnode, _lab in set(flow.control_deps(r)) | {(b_, l_) for b_, l_ in all_guards(prog, rfs, r) if b_.kind == "test"}:
+                    from ..loader import parent as _parent
+
+                    enclosing = set()
+                    p_ = _parent(r.ast)
+                    while p_ is not None and not isinstance(p_, (ast.FunctionDef, ast.AsyncFunctionDef)):
+                        if isinstance(p_, ast.If) and p_ in flow.cfg.node_of_stmt:
+                            enclosing.add((flow.cfg.node_of_stmt[p_], "T"))  # an `if` the raise is nested in (not one it merely follows)
+                        p_ = _parent(p_)
+                    for bnode, _lab in set(flow.control_deps(r)) | enclosing:
                         for ex in flow.node_exprs(bnode):
                             gs |= prog.slice(rfs, ex, bnode).params()
                     # the pre-check must lie on the way to the loop (it can reach the loop head's predecessors)
